@@ -6,7 +6,7 @@ from .. import anchors as A
 from ..callgraph import get_callgraph
 from ..cfg import all_stmts
 from ..effects import DICT, stmt_calls, stmt_writes
-from ..model import AnalysisError, call_name, dotted, is_self_attr, short
+from ..model import AnalysisError, call_name, dotted, func_body_nodes, is_self_attr, short
 from .c05 import lookup_path
 from .common import cfg_of, recv_name
 
@@ -227,6 +227,69 @@ def r3_rewriter_globals_last(ctx):
         )
 
 
+def r4_flag_never_unset(ctx):
+    """The built flag says 'the generated entry point is live'.  Nothing can take the entry point back, so outside
+    the constructor the flag may only be lowered together with re-installing the first-call trampoline."""
+    oc = A.function_class(ctx.repo)
+    n = 0
+    for m in oc.methods.values():
+        rv = recv_name(m)
+        for st in all_stmts(m.node):
+            if isinstance(st, ast.Assign) and any(is_self_attr(t, "_compiled", selfname=rv) for t in st.targets):
+                n += 1
+                ctx.touch(m)
+                v = st.value
+                lowered = not (isinstance(v, ast.Constant) and v.value is True)
+                if m.name == "__init__" or not lowered:
+                    ctx.ob(f"{m.key}:flag={short(v, 12)}", m.loc(st), f"`{short(st, 40)}`: the built flag is lowered only in the constructor", True)
+                    continue
+                resets = any(isinstance(s, ast.Assign) and any(is_self_attr(t, "dispatch", selfname=rv) for t in s.targets) for s in all_stmts(m.node))
+                ctx.ob(
+                    f"{m.key}:flag-lowered",
+                    m.loc(st),
+                    "the built flag is lowered only together with re-installing the first-call trampoline",
+                    resets,
+                    f"`{short(st, 40)}` in {m.name}() marks the function as not built while the generated entry point stays live: if the following build fails, later register/unregister calls skip the rebuild (`if self._compiled`) and every call is answered from the half-built table for good",
+                )
+    ctx.require(n >= 2, "the built flag is no longer assigned in the constructor and the build")
+
+
+BROAD = ("Exception", "BaseException")
+
+
+def r5_no_swallowed_exceptions(ctx):
+    """Resolution code may catch the specific exceptions it expects; a broad handler that does not re-raise turns a
+    failing user hook into a cached wrong answer."""
+    repo = ctx.repo
+    funcs = []
+    for cls in A.cache_classes(repo):
+        funcs += lookup_path(ctx, cls)
+    funcs += [f for f in repo.mod("mro").funcs.values()]
+    funcs += [f for f in repo.mod("types").funcs.values() if f.name.startswith("__") or f.name in ("Exactly", "StrictSubclass", "HasMethod")]
+    funcs += [f for f in repo.mod("dependent").funcs.values() if f.name in ("__type_order__", "__is_supertype__", "__instancecheck__", "check", "is_dependent")]
+    n = 0
+    for f in funcs:
+        for h in [x for x in func_body_nodes(f.node) if isinstance(x, ast.ExceptHandler)]:
+            n += 1
+            ctx.touch(f)
+            names = []
+            if h.type is None:
+                names = ["<bare>"]
+            else:
+                for t in (h.type.elts if isinstance(h.type, ast.Tuple) else [h.type]):
+                    names.append(dotted(t) or "?")
+            broad = any(x in BROAD or x == "<bare>" for x in names)
+            reraises = any(isinstance(x, ast.Raise) for b in h.body for x in ast.walk(b))
+            ctx.ob(
+                f"{f.key}:except:{'+'.join(names)}",
+                f.loc(h),
+                f"`except {', '.join(names)}` in resolution code catches only the specific exception it expects (or re-raises)",
+                not broad or reraises,
+                f"`except {', '.join(names)}` swallows whatever a user type hook or condition raises during resolution: the failure is turned into 'not applicable', and that answer is cached and served to every later call",
+            )
+    ctx.require(n >= 3, "expected the KeyError / TypeError handlers of the resolution code")
+
+
 def r1(ctx):
     publish_last(ctx)
 
@@ -238,5 +301,7 @@ def r2(ctx):
 RULES = [
     ("C18.R1", "P1", r1, "publish last"),
     ("C18.R2", "P1", r2, "commit last"),
+    ("C18.R4", "P1", r4_flag_never_unset, "the built flag is never lowered while the entry point is live"),
+    ("C18.R5", "P1", r5_no_swallowed_exceptions, "resolution code swallows no unexpected exception"),
     ("C18.R3", "P2", r3_rewriter_globals_last, "rewriter touches shared globals last"),
 ]
